@@ -121,3 +121,36 @@ Proof.
   unfold r_frame_high, frame_high. destruct fields_same as (_ & _ & Ef & Esp & Eh). rewrite Eh, Esp, climb_rename. reflexivity.
 Qed.
 End Rename.
+
+(* ---------- the claimed frame of the new event ---------- *)
+(* the node of a new event forkless-causes the same nodes whatever frame the event claims; hence
+   quorum_on / climb / frame_high of the event do not depend on the claimed frame *)
+Section FrIndep.
+Variable vals : list (N * N).
+Notation ws := (map snd vals).
+Notation nv := (length vals).
+Notation q := (ElectionSpec.quorum_of ws).
+Notation fcn := (fc_n ws q).
+Notation qon := (quorum_on node nd_cr nd_fr nd_spf fcn ws q).
+Variable T : list node.
+Variables e e' : fev.
+Hypothesis Hfe : fe e' = fe e.
+
+Lemma fields_fr : nd_id (mk_node nv T e') = nd_id (mk_node nv T e) /\ nd_cr (mk_node nv T e') = nd_cr (mk_node nv T e) /\
+  nd_spf (mk_node nv T e') = nd_spf (mk_node nv T e) /\ nd_hassp (mk_node nv T e') = nd_hassp (mk_node nv T e) /\
+  nd_fr (mk_node nv T e') = ffr e'.
+Proof. unfold mk_node. cbn [nd_id nd_cr nd_spf nd_hassp nd_fr]. rewrite Hfe. repeat split. Qed.
+Lemma fcn_fr b : fcn (mk_node nv T e') b = fcn (mk_node nv T e) b.
+Proof. unfold fc_n, sees_fork_n, mk_node. cbn [nd_forks nd_reach]. rewrite Hfe. reflexivity. Qed.
+Lemma qon_fr Tr g : qon Tr (mk_node nv T e') g = qon Tr (mk_node nv T e) g.
+Proof.
+  unfold quorum_on, wsumP. f_equal. f_equal. apply map_ext. intros u. unfold ElectionSpec.by_cr, obs.
+  rewrite (filter_ext _ _ fcn_fr). reflexivity.
+Qed.
+Lemma climb_fr Tr : forall fuel g, climb node nd_cr nd_fr nd_spf fcn ws q Tr fuel (mk_node nv T e') g = climb node nd_cr nd_fr nd_spf fcn ws q Tr fuel (mk_node nv T e) g.
+Proof. induction fuel as [|fu IH]; intros g; cbn [climb]; [reflexivity|]. rewrite qon_fr, IH. reflexivity. Qed.
+Lemma frame_high_fr : r_frame_high vals T (mk_node nv T e') = r_frame_high vals T (mk_node nv T e).
+Proof.
+  unfold r_frame_high, frame_high. destruct fields_fr as (_ & _ & Esp & Eh & _). rewrite Eh, Esp, climb_fr. reflexivity.
+Qed.
+End FrIndep.
